@@ -53,6 +53,14 @@ fn pb_bytes(field: u8, data: &[u8]) -> Vec<u8> {
 impl RogueSession {
     /// Dial `addr` and go through the whole opening of a connection as an honest dialer would.
     pub fn connect(addr: SocketAddr, seed: u64) -> Result<RogueSession, String> {
+        Self::connect_forged(addr, seed, 0)
+    }
+
+    /// As `connect`, with a forged identity proof: 0 valid; 1 the identity key of another keypair (`seed + 1`) with a
+    /// signature by the rogue's own key; 2 the other keypair's key with its valid signature over another session's static
+    /// key; 3 no signature; 4 signature without the domain prefix; 5 own key, signature over another static key; 6 own key,
+    /// signature of 63 bytes. For every forgery the node must refuse the connection.
+    pub fn connect_forged(addr: SocketAddr, seed: u64, forge: u8) -> Result<RogueSession, String> {
         let mut sock = TcpStream::connect_timeout(&addr, Duration::from_millis(1500)).map_err(|e| format!("connect: {e}"))?;
         sock.set_nodelay(true).ok();
         sock.set_read_timeout(Some(Duration::from_millis(3000))).ok();
@@ -68,12 +76,28 @@ impl RogueSession {
         // Noise XX, initiator, valid identity
         let id = SigningKey::from_bytes(&secret_bytes_from_seed(seed));
         let (static_secret, static_pub) = static_keypair(seed);
+        let other = SigningKey::from_bytes(&secret_bytes_from_seed(seed + 1));
+        let (_, other_static_pub) = static_keypair(seed + 1);
+        let claimed = if matches!(forge, 1 | 2) { &other } else { &id };
         let mut key_blob = vec![0x08, 0x01];
-        key_blob.extend(pb_bytes(2, &id.verifying_key().to_bytes()));
-        let mut signed = DOMAIN.as_bytes().to_vec();
-        signed.extend_from_slice(&static_pub);
+        key_blob.extend(pb_bytes(2, &claimed.verifying_key().to_bytes()));
+        let over = |prefix: &str, st: &[u8; 32]| {
+            let mut m = prefix.as_bytes().to_vec();
+            m.extend_from_slice(st);
+            m
+        };
+        let sig: Option<Vec<u8>> = match forge {
+            0 | 1 => Some(id.sign(&over(DOMAIN, &static_pub)).to_bytes().to_vec()),
+            2 => Some(other.sign(&over(DOMAIN, &other_static_pub)).to_bytes().to_vec()),
+            3 => None,
+            4 => Some(id.sign(&over("", &static_pub)).to_bytes().to_vec()),
+            5 => Some(id.sign(&over(DOMAIN, &other_static_pub)).to_bytes().to_vec()),
+            _ => Some(id.sign(&over(DOMAIN, &static_pub)).to_bytes()[..63].to_vec()),
+        };
         let mut payload = pb_bytes(1, &key_blob);
-        payload.extend(pb_bytes(2, &id.sign(&signed).to_bytes()));
+        if let Some(sig) = sig {
+            payload.extend(pb_bytes(2, &sig));
+        }
         let mut hs = snow::Builder::with_resolver(NOISE_PARAMS.parse().expect("params"), Box::new(RogueResolver(seed)))
             .local_private_key(&static_secret)
             .build_initiator()
